@@ -11,6 +11,7 @@
 
 #include "formatters/jsonformatter.h"
 #include "formatters/sentryformatter.h"
+#include "simplepipeline.h"
 #include "trace.h"
 
 using namespace QtLogger;
@@ -68,6 +69,13 @@ int main(int argc, char **argv)
     vtrace::Writer out;
     JsonFormatter compact(true), indented(false);
     SentryFormatter sentry;
+    // the same formatters as the fluent interface hands them out (every other case goes through these): an indented
+    // pipeline is built first, a compact one afterwards - whatever the builder shares between calls must not leak
+    // from one into the other
+    SimplePipeline viaIndented, viaCompact, viaSentry;
+    viaIndented.formatToJson(false);
+    viaCompact.formatToJson(true);
+    viaSentry.formatToSentry();
     while (!in.atEnd()) {
         const QByteArray line = in.readLine();
         if (line.trimmed().isEmpty())
@@ -88,7 +96,10 @@ int main(int argc, char **argv)
             msg.setFormattedMessage(fromUnits(c["prefmt"].toArray()));
         const QString mode = c["mode"].toString();
         QString res;
-        if (mode == "sentry")
+        if (c["id"].toInt() % 2 == 0) {
+            (mode == "sentry" ? viaSentry : mode == "compact" ? viaCompact : viaIndented).process(msg);
+            res = msg.formattedMessage();
+        } else if (mode == "sentry")
             res = sentry.format(msg);
         else
             res = (mode == "compact" ? compact : indented).format(msg);
